@@ -72,10 +72,18 @@ Step ==
   /\ LET ln   == Log[i]
          pre  == NormState(ln.pre)
          post == NormState(ln.post)
-         exp  == Apply(pre, ln.req)
+         opaque == ln.req.op = "opaque"
+         \* outside the alphabet of Apply: a refused request and a read change
+         \* nothing; anything else is taken as observed
+         keeps == ln.resp.status >= 400 \/ ln.req.method \in {"GET", "HEAD", "OPTIONS"}
+         exp  == IF opaque THEN [s |-> IF keeps THEN pre ELSE post, resp |-> ln.resp]
+                 ELSE Apply(pre, ln.req)
          chain == IF ln.reset THEN {} ELSE IF pre = s THEN {} ELSE {"chain"}
          diff == StateDiff(exp.s, post) \cup RespDiffOp(ln.req.op, exp.resp, ln.resp) \cup chain
-         mon  == StepMonitors(pre, ln.req, ln.resp, post, ln.reset)
+         mon  == IF opaque
+                 THEN StateMonitors(pre, post, ln.reset)
+                      \cup (IF keeps /\ post # pre THEN {"C04_Step"} ELSE {})
+                 ELSE StepMonitors(pre, ln.req, ln.resp, post, ln.reset)
      IN /\ PrintT(<<"PV", ln.id, diff, mon, exp.resp.status, exp.resp.code>>)
         /\ (diff \cap {"body"} # {} => PrintT(<<"PVBODY", ln.id, exp.resp.body>>))
         /\ (diff \ {"status", "code", "body", "chain"} # {} => PrintT(<<"PVSTATE", ln.id, exp.s>>))
